@@ -405,14 +405,32 @@ def _add_addgr_to_aces(acls_: LAcl, parser: ConfigParser) -> None:
             for addr_ace_o in addrs_w_addgr:
                 addgr_name = addr_ace_o.addrgroup
                 addgr_o: AddrGroup = [o for o in addgrs if o.name == addgr_name][0]
-                for address_ag_o in addgr_o.items:
-                    if not isinstance(address_ag_o, AddressAg):
-                        continue
+                for address_ag_o in _addgr_members(addgr_o, addgrs):
                     address_ag_o.sequence = 0
                     address_ag_d = address_ag_o.data()
                     _convert_ios_addr(address_ag_d)
                     addr_item_o = Address(**address_ag_d)
                     addr_ace_o.items.append(addr_item_o)
+
+
+def _addgr_members(addgr_o: AddrGroup, addgrs: LAddrGroup, seen: tuple = ()) -> list:
+    """Return members of address group, nested "group-object NAME" replaced by members of that group.
+
+    :param addgr_o: Address group.
+    :param addgrs: All address groups of the config.
+    :param seen: Names of address groups on the way down (protection against a loop).
+    """
+    items: list = []
+    for address_ag_o in addgr_o.items:
+        if not isinstance(address_ag_o, AddressAg):
+            continue
+        if address_ag_o.addrgroup:
+            nested = [o for o in addgrs if o.name == address_ag_o.addrgroup]
+            if len(nested) == 1 and nested[0].name not in (*seen, addgr_o.name):
+                items.extend(_addgr_members(nested[0], addgrs, (*seen, addgr_o.name)))
+            continue
+        items.append(address_ag_o)
+    return items
 
 
 def _convert_ios_addr(address_ag_d: DAny) -> None:
